@@ -34,7 +34,7 @@
 #   * skipped statements: `super().__init__()`-free bookkeeping that only `extra_repr` reads (`self.tx, self.ty, self.tz = tx, ty, tz`,
 #     `self.theta = theta`, `self.n = n`) and `fmt = f"Rotate-…"` (`fmt` is then `some "Rotate"`: it only triggers the deprecation warning);
 #   * `**kwargs` holds only String-valued keys (in fact only `center`): `fmt=` / `names=` passed through `**kwargs` are not modelled.
-MODULE_MODEL_IMPORTS["AlgoAffine"] = ["PyResample", "PyAffine"]
+MODULE_MODEL_IMPORTS["AlgoAffine"] = ["PyResample", "PyNonzero", "PyAffine"]
 
 TYPE_HEADS["Fun"] = 2
 
